@@ -19,7 +19,7 @@ Lemma Forall2_impl {A B} (P Q : A -> B -> Prop) l m :
 Proof. intros H F. induction F; constructor; auto. Qed.
 
 (* the stripped, parsable inputs: the reactions that get a row *)
-Definition admitted (ins : list string) : list string := filter (parse_ok OR) (map (strip OR) ins).
+Definition kept_inputs (ins : list string) : list string := filter (parse_ok OR) (map (strip OR) ins).
 
 Lemma alone_fields t tmsg s r1 : alone t tmsg s = Done r1 ->
   rxn r1 = rxn (F (fresh 0 s)) /\ rinput r1 = rinput (F (fresh 0 s)) /\ sby r1 = sby (F (fresh 0 s)) /\
@@ -43,7 +43,7 @@ Theorem run_balanced_passthrough t tmsg ins rows st :
   run t tmsg ins = Done (rows, st) ->
   Forall2 (fun s r =>
     (good OR s = true -> solved r = true /\ sby r = Some M_INPUT /\ rxn r = s /\ rinput r = s) /\
-    (sby r = Some M_INPUT -> good OR s = true /\ rxn r = s)) (admitted ins) rows.
+    (sby r = Some M_INPUT -> good OR s = true /\ rxn r = s)) (kept_inputs ins) rows.
 Proof.
   intros H. pose proof (run_rows_are_alone_results OR db ban fuel t tmsg ins rows st H) as A.
   eapply Forall2_impl; [|exact A]. intros s r [r1 [A1 E]]. cbv beta.
@@ -63,7 +63,7 @@ Qed.
    reaction it returns *)
 Theorem run_solved_validated t tmsg ins rows st :
   run t tmsg ins = Done (rows, st) ->
-  Forall2 (fun s r => solved r = true -> bal OR (rxn r) = true) (admitted ins) rows.
+  Forall2 (fun s r => solved r = true -> bal OR (rxn r) = true) (kept_inputs ins) rows.
 Proof.
   intros H. pose proof (run_rows_are_alone_results OR db ban fuel t tmsg ins rows st H) as A.
   eapply Forall2_impl; [|exact A]. intros s r [r1 [A1 E]] S. cbv beta.
@@ -76,7 +76,7 @@ Qed.
 (* C06: the row a reaction gets is the row it gets alone, whatever else is in the batch *)
 Theorem run_row_independent_of_batch t tmsg ins1 ins2 rows1 rows2 st1 st2 s i j r1 r2 :
   run t tmsg ins1 = Done (rows1, st1) -> run t tmsg ins2 = Done (rows2, st2) ->
-  nth_error (admitted ins1) i = Some s -> nth_error (admitted ins2) j = Some s ->
+  nth_error (kept_inputs ins1) i = Some s -> nth_error (kept_inputs ins2) j = Some s ->
   nth_error rows1 i = Some r1 -> nth_error rows2 j = Some r2 ->
   set_rid r1 0 = set_rid r2 0.
 Proof.
